@@ -14,7 +14,10 @@ RULE = ('spec trees of depth <= 3 (quick) / 4 (thorough) built from nestings of 
         'at every step position of tuples and Pipes, as dict values, Coalesce branches, Switch keys and values, And/Or '
         'children and call arguments; leaves are mode probes (a custom spec object recording scope[MODE] at its '
         'position, unique id per position), mode-sensitive plain objects (a string, a tuple, a list, a dict: they mean '
-        'something different in every mode), T, instrumented callables; plus Fill over random literal container shapes '
+        'something different in every mode), T, instrumented callables; plus lazy streams (Iter(sub) / Iter().map(sub) with such '
+        'leaves or a random sub-spec) built under a wrapper that is a non-final link of a tuple / Pipe -- bare, inside a dict / list '
+        'built under the wrapper, with the chain itself under a second wrapper -- and consumed by a later link (list / tuple), with '
+        'controls (consumed inside the wrapper; wrapper last); plus Fill over random literal container shapes '
         '(dict/list/tuple/set/frozenset nested to depth 3) with T / Spec / Val / callable leaves; plus containers with T leaves '
         'in argument position (Coalesce default, Call args/kwargs, S(k=..) value, Fill) evaluated once per record of a '
         'list of distinct records after an access step of the same chain (empty containers included, also nested, and '
@@ -31,20 +34,31 @@ RULE = ('spec trees of depth <= 3 (quick) / 4 (thorough) built from nestings of 
 TRUSTED = ['Python primitives are parameters of the theorems (`Prims`); their executable instantiation is validated by '
            'the correspondence only',
            'the accumulating dict/list specs of Group mode are C16 (here Group wraps probes, T, callables, nested wrappers)']
-ASSUMPTIONS = ['self-referential containers in argument position (the id()-memo of _ArgValuator) are exercised by the '
-               'correspondence only (tree-shaped specs in the model)']
+ASSUMPTIONS = ['self-referential containers in argument position (the id()-memo of _ArgValuator) are outside the proved Spec type '
+               '(tree-shaped): their rebuilt graph is compared, in canonical first-visit numbering, with the Lean reference '
+               '`rebuild` (Glom/Spec/C08.lean) whose leaves are evaluated by the interpreter model -- exercised on every run, not proved',
+               'identity / freshness of rebuilt containers (no object of the spec in a result or a call argument, evaluations share '
+               'no mutable state) is observed by the harness on the implementation: the model\'s values are immutable trees',
+               'a lazily evaluated stream (Iter(sub) / Iter().map(sub)) is modelled -- and covered by c08_mode_lexical -- by evaluating '
+               'its items in the scope and mode of the place where it is written (the frame the generator captures keeps the mode '
+               'copied into it), the consumer forcing the stream value; the generated streams are consumed exactly once by a later '
+               'chain link with nothing logged or caught in between, where this coincides with the deferred evaluation step for step; '
+               'the other Iter stages are C17']
 MANIFEST = dict(
     text=("Lean 4 theorem c08_mode_lexical: for every spec (any nesting), target, Python-primitive instantiation and fuel, "
           "every mode the code-shaped interpreter records at a probe (mode stored in scope frames, copied by _glom, set by "
           "Fill/Auto/Match/Group on their own frame, reset by chain_child) equals the static mode of that position (nearest "
           "enclosing wrapper, else AUTO); proved generically for any scope satisfying 24 lexical-scoping laws and the laws "
           "proved for the ChainMap-of-frames representation; Fill/argument mode shape and literal laws; a proved "
-          "counter-example shows the pre-repair chain_child (defect F4) violates it. The interpreter model is tied to "
+          "counter-example shows the pre-repair chain_child (defect F4) violates it; lazily evaluated streams (Iter) are a construct "
+          "of the induction (their probes carry the mode of the place where the stream is written, whichever later step consumes "
+          "it). The interpreter model is tied to "
           "/repo by differential execution (result + call log + probe-mode log) through the compiled Lean driver, which "
           "evaluates the same checkModes predicate on the modes the real glom recorded."),
     note=("trusted: Lean kernel + {propext, Classical.choice, Quot.sound}; harness/driver; Python primitives as Prims "
           "parameters; hand-written interpreter model (validated on every run by the correspondence, not regenerated). "
-          "Not covered by a theorem: cyclic containers in argument position; Group's accumulating dict/list specs (C16)."),
+          "Not covered by a theorem: cyclic containers in argument position (checked against the Lean reference `rebuild` on every run); "
+          "identity/freshness of rebuilt containers (observed on the implementation); Group's accumulating dict/list specs (C16)."),
     technique='Lean 4 invariant proof by induction on fuel over a monadic interpreter model (Hoare-style rules) + differential correspondence',
     ref='DESIGN.md §3 C08')
 
